@@ -417,7 +417,11 @@ class Ctx:
             return None
         h, blocks = lp
         b = f.body
-        for bi in sorted(blocks):
+        # the loop's own `next` call (not that of a loop nested inside it, whatever the block numbering): the one whose innermost
+        # loop is this loop; block order only breaks ties
+        cands = [bi for bi in sorted(blocks) if b.blocks[bi].term.kind == "call" and b.blocks[bi].term.callee.path == "std::iter::Iterator::next"]
+        own = [bi for bi in cands if (g.loop_of(bi) or (None,))[0] == h]
+        for bi in (own or cands):
             t = b.blocks[bi].term
             if t.kind == "call" and t.callee.path == "std::iter::Iterator::next" and t.args and t.args[0].place:
                 # receiver is &mut iter ; find iter local
@@ -531,10 +535,16 @@ def run(prop, tier):
         mod.run(ctx)
     except Skip:
         pass
-    except Exception:
+    except Exception as ex:
+        # a rule could not evaluate this tree (a code shape its extraction does not handle).  That is not an infrastructure
+        # problem - the facts were extracted - and it must not pass silently: fail closed, as one unproved instance that names
+        # the place, so that the report is diagnosable.  (On the reviewed tree no rule raises.)
         traceback.print_exc()
-        sys.stderr.write("INFRA-FAILURE: rule code raised\n")
-        return 2
+        tb = traceback.extract_tb(sys.exc_info()[2])
+        where = next(("%s:%d in %s" % (os.path.basename(fr.filename), fr.lineno, fr.name) for fr in reversed(tb) if "/rules/" in fr.filename), "?")
+        ctx.bad("R-%s.evaluable" % prop, "R-%s.evaluable:%s" % (prop, where.split(" in ")[-1]),
+                "the rules of %s could not be evaluated on this tree (%s: %s at %s); the code has a shape the extraction does not "
+                "recognise - reported fail-closed, the remaining rules of this property were not run" % (prop, type(ex).__name__, ex, where), kind="unproved")
 
     # floors
     per_rule = {}
